@@ -12,8 +12,9 @@
      paths = [p for p in paths if len(p) > 0]
      if src is not dst:   (* <-- the suffix filter: `suffix_filter` below *)
         paths = sorted(paths, key=len, reverse=True)
-        keep paths[i] unless some p in paths[i+1:] has paths[i][-len(p):] == p   *)
-From PyRTL Require Export Netlist.WFDefs.
+        keep paths[i] unless some p in paths[i+1:] is a suffix of paths[i] and the
+        net just before that suffix drives src (`loops_into`)   *)
+From PyRTL Require Export Analysis.Timing.
 
 Fixpoint list_eqb {A} (eqb : A -> A -> bool) (l1 l2 : list A) : bool :=
   match l1, l2 with
@@ -83,17 +84,24 @@ Fixpoint insert_desc {A} (p : list A) (l : list (list A)) : list (list A) :=
 Definition sort_desc {A} (l : list (list A)) : list (list A) :=
   fold_right insert_desc [] l.
 
-(* q[-len(p):] == p   (p non-empty; Python slices clamp) *)
-Definition is_suffix (p q : list net) : bool :=
-  list_eqb net_eqb (skipn (length q - length p) q) p.
+(* loops_into(q) for paths[i] = p  (analysis.py, after the F18 fix):
+     head = p[:len(p) - len(q)]
+     p[len(head):] == q  and  (not head or any(w is src for w in head[-1].dests)) *)
+Definition loops_into (src : wid) (q p : list net) : bool :=
+  let head := firstn (length p - length q) p in
+  list_eqb net_eqb (skipn (length head) p) q
+  && match rev head with
+     | [] => true
+     | l :: _ => has_dest l && (ndest l =? src)
+     end.
 
-(* THE FILTER (analysis.py:531-541): drop paths[i] when a later (not longer)
-   path is a suffix of it. *)
-Fixpoint suffix_filter (l : list (list net)) : list (list net) :=
+(* THE FILTER (analysis.py:531-547): drop paths[i] when a later (not longer)
+   path q is a suffix of it AND the part of paths[i] before q leads back to src. *)
+Fixpoint suffix_filter (src : wid) (l : list (list net)) : list (list net) :=
   match l with
   | [] => []
-  | p :: r => if existsb (fun q => is_suffix q p) r then suffix_filter r
-              else p :: suffix_filter r
+  | p :: r => if existsb (fun q => loops_into src q p) r then suffix_filter src r
+              else p :: suffix_filter src r
   end.
 
 Definition paths_raw (src dst : wid) : list (list net) :=
@@ -101,6 +109,6 @@ Definition paths_raw (src dst : wid) : list (list net) :=
 
 Definition paths (src dst : wid) : list (list net) :=
   if src =? dst then paths_raw src dst
-  else suffix_filter (sort_desc (paths_raw src dst)).
+  else suffix_filter src (sort_desc (paths_raw src dst)).
 
 End Paths.
